@@ -11,6 +11,8 @@ META = {
                    "message length of the bound; declared key/message/cipher lengths are UNBOUNDED symbolic ints "
                    "in the contract obligations.",
     "bounds": {"message length": "0..34 (quick) / 0..80 (thorough), all byte values", "key sizes": "16, 24, 32",
+               "runs on one cipher object": "2 encryptions per obligation; plus 700 (quick) / 9000 (thorough) encryptions "
+               "of one message on one object, interleaved with a second object, all pairwise different",
                "declared lengths": "all integers (symbolic), actual lengths from {0,15,16,17,32} x {15,16,24,32,33}"},
     "outside_bounds": "AES itself (hence 'a different key never returns m' only as the plumbing statement that "
                       "Decrypt hands its own key and the transmitted IV to the cipher); messages longer than the "
@@ -200,6 +202,34 @@ def h_tamper(P, S):
     return S.fail("truncated-ciphertext-accepted") if r == b"0123456789abcdefXYZ" else True
 
 
+def h_many(P, S):
+    """fresh randomness over a long run on ONE cipher object (and a second object of the class): R encryptions of
+    one message under one key are pairwise different, and none of them equals an encryption by the other object"""
+    if not P.get("_native"):
+        from env import ideal
+        ideal.reset(int(P.get("seed", 0)))
+    n, kl, R = P["n"], P["kl"], P["reps"]
+    E, E2 = _impl()(key_length=kl), _impl()(key_length=kl)
+    m = S.bytes("m", n)
+    k = E.KeyGen()
+    if P.get("twin"):
+        return False
+    seen = {}
+    for i in range(R):
+        c = bytes(E.Encrypt(k, m))
+        if c in seen:
+            return S.fail("encryption-%d-equals-encryption-%d" % (i, seen[c]))
+        seen[c] = i
+        if i % 97 == 0:
+            c2 = bytes(E2.Encrypt(k, m))
+            if c2 in seen:
+                return S.fail("two-cipher-objects-produce-the-same-ciphertext")
+            seen[c2] = -1
+    if E.Decrypt(k, c) != m:
+        return S.fail("decrypt-after-many")
+    return True
+
+
 def obligations(tier, seed):
     obs = []
     q = tier == "quick"
@@ -217,6 +247,10 @@ def obligations(tier, seed):
         obs.append(ob("c14.pad.n%d" % n, "harness.c14", "h_pad", {"n": n}, budget_s=200))
     for n in (0, 1, 15, 16, 17, 32):
         obs.append(ob("c14.unpad.n%d" % n, "harness.c14", "h_unpad", {"n": n}, budget_s=400))
+    for kl, n in ((16, 3), (32, 16)):
+        obs.append(ob("c14.many.k%d.n%d" % (kl, n), "harness.c14", "h_many",
+                      {"n": n, "kl": kl, "seed": seed, "reps": 700 if q else 9000}, budget_s=900, per_path_s=600))
+    obs.append(twin("c14.many.twin", "harness.c14", "h_many", {"n": 3, "kl": 16, "reps": 3, "twin": True}))
     obs.append(ob("c14.contracts", "harness.c14", "h_contracts", {}, budget_s=400))
     obs.append(ob("c14.tamper", "harness.c14", "h_tamper", {}, budget_s=200))
     obs.append(twin("c14.twin", "harness.c14", "h_roundtrip", {"n": 5, "kl": 16, "twin": True}))
